@@ -6,13 +6,23 @@ package main
 import (
 	"fmt"
 	"net"
+	"os"
+	"os/exec"
 	"strconv"
+	"strings"
 
 	"golang.org/x/sys/unix"
 
+	"github.com/panjf2000/gnet/v2/pkg/pool/byteslice"
 	"github.com/panjf2000/gnet/v2/pkg/socket"
 	"github.com/panjf2000/gnet/v2/zzverif/vlib"
 )
+
+type heldAddr struct {
+	a    net.Addr
+	want string
+	desc string
+}
 
 type weird struct{}
 
@@ -59,6 +69,7 @@ func main() {
 		n = *vlib.FlagN
 	}
 	var evals int64
+	held := make([]heldAddr, 24)
 	for i := 0; i < n; i++ {
 		port := r.Pick(0, 1, 80, 255, 256, 65535, r.Intn(65536))
 		var ip net.IP
@@ -149,6 +160,62 @@ func main() {
 		res.Distinct(kind + "|" + class + "|" + zc)
 		if i < 3 {
 			res.Sample(map[string]any{"addr": desc, "back": back.String()})
+		}
+		// the converted address stays what it is while later conversions run and other users of the byte pool come and
+		// go (its zone string must not live in memory that has gone back to the pool)
+		held[i%len(held)] = heldAddr{back, strings.Clone(back.String()), desc}
+		if i%4 == 0 {
+			b := byteslice.Get(1 + r.Intn(40))
+			for j := range b {
+				b[j] = 'x'
+			}
+			byteslice.Put(b)
+		}
+		if i%8 == 7 {
+			for _, h := range held {
+				if h.a != nil && h.a.String() != h.want {
+					res.Violate("C17 converted address changed afterwards "+zc, fmt.Sprintf("%s was converted to %q; after later conversions and pool traffic it reads %q", h.desc, h.want, h.a.String()), map[string]any{"addr": h.desc})
+					held = make([]heldAddr, len(held))
+					break
+				}
+			}
+		}
+	}
+	// history: an interface is deleted and created again under the same name (a restarted tunnel): its index changes,
+	// and the conversion of "%name" must follow (only inside the private namespace of selftest/netns_wrap.sh)
+	if os.Getenv("VERIF_NETNS") == "1" {
+		ipLink := func(args ...string) error { return exec.Command("ip", append([]string{"link"}, args...)...).Run() }
+		name := "zc0"
+		_ = ipLink("del", name)
+		add := func(n string) bool {
+			return ipLink("add", n, "type", "dummy") == nil || ipLink("add", n, "type", "veth", "peer", "name", n+"p") == nil
+		}
+		ok := add(name)
+		for round := 0; round < 4 && ok; round++ {
+			ifi, err := net.InterfaceByName(name)
+			if err != nil {
+				break
+			}
+			evals++
+			ip := net.ParseIP("fe80::1234")
+			sa := socket.NetAddrToSockaddr(&net.UDPAddr{IP: ip, Port: 9, Zone: name})
+			sa6, _ := sa.(*unix.SockaddrInet6)
+			if sa6 == nil || int(sa6.ZoneId) != ifi.Index {
+				res.Violate("C17 zone name converted to a stale interface index", fmt.Sprintf("interface %q has index %d now (re-created %d times); %%%s was converted to scope id %v", name, ifi.Index, round, name, sa), map[string]any{"round": round})
+			}
+			back, _ := socket.SockaddrToUDPAddr(&unix.SockaddrInet6{Port: 9, ZoneId: uint32(ifi.Index), Addr: [16]byte{0xfe, 0x80, 15: 1}}).(*net.UDPAddr)
+			if back == nil || back.Zone != name {
+				res.Violate("C17 interface index converted to a stale zone name", fmt.Sprintf("index %d is interface %q now; converted to %v", ifi.Index, name, back), map[string]any{"round": round})
+			}
+			// re-create: a filler interface takes the old index, the name comes back with a new one
+			_ = ipLink("del", name)
+			_ = add(fmt.Sprintf("zf%d", round))
+			ok = add(name)
+			res.Distinct("history|interface-recreated-under-the-same-name")
+		}
+		_ = ipLink("del", name)
+		for round := 0; round < 4; round++ {
+			_ = ipLink("del", fmt.Sprintf("zf%d", round))
 		}
 	}
 	// invalid IP lengths and unsupported networks -> nil, never a panic
